@@ -25,6 +25,7 @@ pub trait Sc: Float + Element + ElementConversion + std::fmt::Debug + num_traits
     fn hex(self) -> String;
     fn tok(self) -> String;
     fn from64(x: f64) -> Self;
+    fn to64(self) -> f64;
 }
 impl Sc for f32 {
     const NAME: &'static str = "f32";
@@ -37,6 +38,9 @@ impl Sc for f32 {
     fn from64(x: f64) -> Self {
         x as f32
     }
+    fn to64(self) -> f64 {
+        self as f64
+    }
 }
 impl Sc for f64 {
     const NAME: &'static str = "f64";
@@ -48,6 +52,9 @@ impl Sc for f64 {
     }
     fn from64(x: f64) -> Self {
         x
+    }
+    fn to64(self) -> f64 {
+        self
     }
 }
 
